@@ -1,4 +1,16 @@
+mod child;
+mod geometry;
+mod raster;
+
 fn main() {
-    eprintln!("usage: vh-misc <subcommand> [options]");
-    std::process::exit(2);
+    let cmd = std::env::args().nth(1).unwrap_or_default();
+    match cmd.as_str() {
+        "raster-contours" => raster::main_contours(),
+        "raster-draw" => raster::main_draw(),
+        "geometry" => geometry::main_geometry(),
+        _ => {
+            eprintln!("usage: vh-misc <raster-contours|raster-draw|geometry|ctc|serialize> [options]");
+            std::process::exit(2);
+        }
+    }
 }
